@@ -729,14 +729,19 @@ let bs (s : string) : Byte.byte list = bytes_of_string s
 (* both machines driven by the same path-addressed operations *)
 type mop = MTouch of string list | MPut of string list * string * string | MDel of string list * string | MDelB of string list * string
 
+let emit_hist : Buffer.t option ref = ref None
+let hexs (x : string) : string = if x = "" then "-" else S.concat "" (L.init (S.length x) (fun i -> Printf.sprintf "%02x" (Char.code (S.get x i))))
+let hline fmt = Printf.ksprintf (fun l -> match !emit_hist with Some b -> Buffer.add_string b l; Buffer.add_char b '\n' | None -> ()) fmt
 let apply_tx (eng : Engine.db) (spec : Spec.sdb) (txn : int) (ops : mop list) : (Engine.db, string) result * Spec.sdb =
   (* reference: handles per path *)
   let t = n_of_int txn in
   let (sp, _) = Spec.step spec (Spec.CBegin (t, true)) in
+  hline "begin %d w" txn;
   let sp = ref sp in
   let handles : (string list, int) Hashtbl.t = Hashtbl.create 16 in
   Hashtbl.replace handles [] 0;
   let nexth = ref 1 in
+  let eops = ref [] in
   let rec handle path =
     match Hashtbl.find_opt handles path with
     | Some h -> Some h
@@ -749,9 +754,11 @@ let apply_tx (eng : Engine.db) (spec : Spec.sdb) (txn : int) (ops : mop list) : 
               | Some ph ->
                   let h = !nexth in incr nexth;
                   let (sp', r) = Spec.step !sp (Spec.COp (t, Spec.OGoc (n_of_int ph, bs nm, n_of_int h))) in
+                  hline "goc %d %d %s %d" txn ph (hexs nm) h;
                   sp := sp';
-                  (match r with Spec.ROk -> Hashtbl.replace handles path h; Some h | _ -> None))) in
-  let eops = ref [] in
+                  (* each successful open / create is a call of its own in the library: it persists even when a later
+                     component of the path is refused *)
+                  (match r with Spec.ROk -> Hashtbl.replace handles path h; eops := !eops @ [Engine.Touch (L.map bs path)]; Some h | _ -> None))) in
   L.iter (fun o ->
     match o with
     | MTouch p -> (match handle p with Some _ -> eops := !eops @ [Engine.Touch (L.map bs p)] | None -> ())
@@ -759,6 +766,7 @@ let apply_tx (eng : Engine.db) (spec : Spec.sdb) (txn : int) (ops : mop list) : 
         (match handle p with
          | Some h ->
              let (sp', r) = Spec.step !sp (Spec.COp (t, Spec.OPut (n_of_int h, bs k, bs v))) in
+             hline "put %d %d %s %s" txn h (hexs k) (hexs v);
              sp := sp';
              (match r with Spec.ROpt _ -> eops := !eops @ [Engine.Put (L.map bs p, bs k, bs v)] | _ -> ())
          | None -> ())
@@ -766,6 +774,7 @@ let apply_tx (eng : Engine.db) (spec : Spec.sdb) (txn : int) (ops : mop list) : 
         (match handle p with
          | Some h ->
              let (sp', r) = Spec.step !sp (Spec.COp (t, Spec.ODel (n_of_int h, bs k))) in
+             hline "del %d %d %s" txn h (hexs k);
              sp := sp';
              (match r with Spec.ROpt _ -> eops := !eops @ [Engine.Del (L.map bs p, bs k)] | _ -> ())
          | None -> ())
@@ -773,6 +782,7 @@ let apply_tx (eng : Engine.db) (spec : Spec.sdb) (txn : int) (ops : mop list) : 
         (match handle p with
          | Some h ->
              let (sp', r) = Spec.step !sp (Spec.COp (t, Spec.ODelB (n_of_int h, bs nm))) in
+             hline "delb %d %d %s" txn h (hexs nm);
              sp := sp';
              (match r with
               | Spec.ROk ->
@@ -782,8 +792,15 @@ let apply_tx (eng : Engine.db) (spec : Spec.sdb) (txn : int) (ops : mop list) : 
               | _ -> ())
          | None -> ())) ops;
   let (sp', _) = Spec.step !sp (Spec.CCommit t) in
+  hline "commit %d" txn; hline "snap"; hline "check";
+  hline "begin %d r" (txn + 100000); hline "dump %d" (txn + 100000); hline "drop %d" (txn + 100000);
   let er = match Engine.run_tx_auto eng !eops with
-    | Engine.Ok e -> Ok e
+    | Engine.Ok e ->
+        (* the tier-B statement itself, evaluated: abs_db after = sem_tx ops (abs_db before) = the reference machine's root *)
+        let lhs = EngineAbs.abs_db e and rhs = EngineAbs.sem_tx !eops (EngineAbs.abs_db eng) in
+        if lhs <> rhs then Error "statement: abs_db (run_tx st ops) <> sem_tx ops (abs_db st)"
+        else if rhs <> Spec.strip sp'.Spec.d_committed then Error "statement: sem_tx differs from the handle-based reference machine"
+        else Ok e
     | Engine.Panic m -> Error ("panic: " ^ string_of_coq m)
     | Engine.Err m -> Error ("error: " ^ string_of_coq m) in
   (er, sp')
@@ -861,10 +878,60 @@ let cmd_msearch (args : string list) : unit =
            done
        | _ -> prerr_endline "msearch: bad family");
       Printf.printf "done cases=%d hits=%d\n" !cases !hits
-  | _ -> prerr_endline "usage: monitor msearch subsets|ranges <P> <n> <keylen> <every> [lo hi]"
+  | _ -> prerr_endline "usage: monitor msearch subsets|ranges <P> <n> <keylen> <subs> [lo hi] | msearch random <P> <seed0> <nseeds> <ntx> <nops>"
+
+(* msearch random: chains of transactions of random path-addressed operations over a small universe in which names
+   collide (a name is a value in one bucket and a bucket in another), depth <= 3, short and long keys/values (splits,
+   overflow), bucket deletes of whole subtrees; after EVERY transaction: engine contents = reference machine = sem_tx,
+   pages partitioned *)
+let cmd_msearch_random (args : string list) : unit =
+  match args with
+  | ps :: seed0 :: nseeds :: ntx :: nops :: more ->
+      if more = ["emit"] then emit_hist := Some (Buffer.create 65536);
+      let p = int_of_string ps and seed0 = int_of_string seed0 and nseeds = int_of_string nseeds
+      and ntx = int_of_string ntx and nops = int_of_string nops in
+      let cases = ref 0 and hits = ref 0 in
+      for seed = seed0 to seed0 + nseeds - 1 do
+        let st = Random.State.make [| seed; 77 |] in
+        let ri n = Random.State.int st n in
+        let names = [| "a"; "b"; "c"; "d"; "e" |] in
+        let name () = names.(ri (Array.length names)) in
+        let key () = match ri 10 with
+          | 0 | 1 | 2 -> name ()
+          | 3 | 4 | 5 | 6 -> Printf.sprintf "k%02d" (ri 30)
+          | _ -> lk (ri 30) (100 + 50 * ri 4) in
+        let value () = match ri 8 with
+          | 0 -> S.make (p + ri (2 * p)) 'v'          (* overflow *)
+          | 1 | 2 -> S.make (50 + ri 300) 'w'
+          | _ -> Printf.sprintf "v%d" (ri 1000) in
+        let path () = L.init (ri 4) (fun _ -> name ()) in
+        let path1 () = L.init (1 + ri 3) (fun _ -> name ()) in      (* the API has no put / delete on the root *)
+        let eng = ref (Engine.init_db (n_of_int p)) and spec = ref Spec.init_sdb in
+        (try
+          for t = 1 to ntx do
+            let ops = L.init (1 + ri nops) (fun _ ->
+              match ri 20 with
+              | 0 | 1 -> MDelB (path (), name ())
+              | 2 | 3 | 4 | 5 | 6 -> MDel (path1 (), key ())
+              | 7 -> MTouch (path ())
+              | _ -> MPut (path1 (), key (), value ())) in
+            incr cases;
+            let (er, sp) = apply_tx !eng !spec t ops in
+            (match er with
+             | Error m -> incr hits; if !hits <= 20 && !emit_hist = None then Printf.printf "HIT random P=%d seed=%d ntx=%d nops=%d tx=%d :: model %s\n" p seed ntx nops t m; raise Exit
+             | Ok e ->
+                 (match same_contents e sp with
+                  | Some m -> incr hits; if !hits <= 20 && !emit_hist = None then Printf.printf "HIT random P=%d seed=%d ntx=%d nops=%d tx=%d :: %s\n" p seed ntx nops t m; raise Exit
+                  | None -> eng := e; spec := sp))
+          done
+        with Exit -> ())
+      done;
+      (match !emit_hist with Some b -> print_string (Buffer.contents b) | None -> Printf.printf "done cases=%d hits=%d\n" !cases !hits)
+  | _ -> prerr_endline "usage: monitor msearch random <P> <seed0> <nseeds> <ntx> <nops> [emit]"
 
 let () =
   match Array.to_list Sys.argv with
+  | _ :: "msearch" :: "random" :: args -> cmd_msearch_random args
   | _ :: "msearch" :: args -> cmd_msearch args
   | _ :: "engine" :: ps :: script :: _ -> cmd_engine (int_of_string ps) script
   | _ :: "api" :: _ -> cmd_api ()
